@@ -14,7 +14,7 @@
 
    Only pinned statements (closed by [exact]) and Examples. *)
 From SC Require Import Lib.Prelude Lib.Int Lib.Host Model.Timelock Model.TimelockGhost Model.TimelockController
-  Proofs.Timelock Proofs.C08Final Proofs.Controller Proofs.C09Final Proofs.C09Enum Run.C09 Proofs.C09Monitor.
+  Proofs.Timelock Proofs.C08Final Proofs.Controller Proofs.C09Final Proofs.C09Enum Proofs.C09Extreme Run.C09 Proofs.C09Monitor.
 
 (* __check_auth (fixed code) succeeds only with exactly one descriptor per context; every context
    names the controller; the operation (controller, fn, args, predecessor, salt) it stands for was
@@ -261,6 +261,50 @@ Theorem C09_monitor_accepts_model :
     check (model_trace cf n0 md props execs adm ids naddr nroles tags tbl avs s0 cs) = (0%N, 0%N, 0%N).
 Proof. exact check_accepts_model. Qed.
 Print Assumptions C09_monitor_accepts_model.
+
+(* DELAYS AT THE u32 EXTREMES.  Whatever delay d (any u32: u32::MAX, ledger + d >= 2^32, 2^31 +- 1, ...) a successful
+   schedule_op passes, the ready ledger stored is min(ledger + d, u32::MAX) - never the sum reduced modulo 2^32 - and at
+   every ledger l from the scheduling ledger on with l < ledger + d (and below u32::MAX, where saturation ends) the
+   operation reads Waiting: __check_auth and execute_op refuse it (C09_check_auth_consumes: only Ready is consumed). *)
+Theorem C09_scheduled_op_waits_full_delay :
+  forall (hash : op -> id) (aid : argv -> N) (cf : cfg) (s : state) (o : op) (d : Z) (p : addr) (au : authz)
+         (s' : state) (r : option id),
+    step_ok hash aid cf s (ScheduleOp o d p au) = Ok (s', r) ->
+    2 <= now (ctl s') ->
+    r = Some (hash o) /\ 0 <= d <= MAXU32 /\
+    mark (ctl s') (hash o) = Z.min (now (ctl s') + d) MAXU32 /\
+    (forall l, now (ctl s') <= l -> l < now (ctl s') + d -> l < MAXU32 ->
+               state_of_mark l (mark (ctl s') (hash o)) = Waiting).
+Proof. exact scheduled_op_waits_full_delay. Qed.
+Print Assumptions C09_scheduled_op_waits_full_delay.
+
+Theorem C09_max_delay_never_ready :
+  forall (hash : op -> id) (aid : argv -> N) (cf : cfg) (s : state) (o : op) (p : addr) (au : authz)
+         (s' : state) (r : option id),
+    step_ok hash aid cf s (ScheduleOp o MAXU32 p au) = Ok (s', r) ->
+    2 <= now (ctl s') ->
+    forall l, now (ctl s') <= l -> l < MAXU32 -> state_of_mark l (mark (ctl s') (hash o)) = Waiting.
+Proof. exact max_delay_never_ready. Qed.
+Print Assumptions C09_max_delay_never_ready.
+
+(* the monitor by itself rejects a ready ledger that wrapped around (schedule_op(delay = u32::MAX) at ledger 100
+   storing 99), one that wrapped to the Unset / Done marks, and the consumption that such a ledger makes possible in
+   the scheduling ledger although the getters were honest; the honest run is accepted and equal to the model *)
+Definition xt_sched (d : Z) := ScheduleOp ex_opA d 2 (AZ [2%N] None []).
+Definition xt_marked (v : Z) : state :=
+  with_ctl Run.C09.ex_s0 {| now := 100; min_delay := Some 2; marks := [(1%N, v)] |}.
+Example C09_monitor_rejects_wrapped_ready_ledger :
+  monitor (ex_hdr, [(xt_sched 4294967295, OkI 1, ex_obs (xt_marked 99))]) = 1%N
+  /\ monitor (ex_hdr, [(xt_sched 4294967196, OkI 1, ex_obs (xt_marked 0))]) = 1%N
+  /\ monitor (ex_hdr, [(xt_sched 4294967197, OkI 1, ex_obs (xt_marked 1))]) = 1%N
+  /\ monitor (ex_hdr, [(xt_sched 4294967198, OkI 1, ex_obs (xt_marked 2))]) = 1%N
+  /\ monitor (ex_hdr, ex_events [xt_sched 4294967295]
+                      ++ [(ex_update, OkN, ex_obs (with_ctl Run.C09.ex_s0 {| now := 100; min_delay := Some 5; marks := [(1%N, 1)] |}))]) = 2%N
+  /\ check (ex_hdr, ex_events [xt_sched 4294967295; ex_update; Advance 1; ex_update; Advance 4000000000; ex_update]) = (0, 0, 0)%N
+  /\ map (fun e => is_ok (snd (fst e))) (ex_events [xt_sched 4294967295; ex_update; Advance 1; ex_update; Advance 4000000000; ex_update])
+     = [true; false; true; false; true; false]
+  /\ mark (ctl (ex_run [xt_sched 4294967295])) 1%N = 4294967295.
+Proof. vm_compute. repeat split. Qed.
 
 (* ---------------- non-vacuity ---------------- *)
 (* the self-administration path is reachable: schedule, wait, update_delay with a consuming
